@@ -633,13 +633,13 @@ impl Property for C04 {
     }
     fn cases(&self, tier: Tier) -> u64 {
         match tier {
-            Tier::Quick => 3 * (SMALL_GRAPHS * 20 + 2_000),
+            Tier::Quick => 3 * (SMALL_GRAPHS * 20 + 25_000),
             Tier::Thorough => 3 * (SMALL_GRAPHS * 400 + 2_500_000),
         }
     }
     fn min_nontrivial(&self, tier: Tier) -> u64 {
         match tier {
-            Tier::Quick => 5_000,
+            Tier::Quick => 20_000,
             Tier::Thorough => 1_000_000,
         }
     }
